@@ -262,6 +262,15 @@ def interpret_corpus(tier):
                             c04.ASG(V('f'), B(op, left, B('==', F_('nobody', 'N'), I(1))))])
         out.append(setup + [c04.ASG(V('f'), B(op, left, B('==', B('/', I(1), I(0)), I(1))))])
         out.append(setup + [c04.ASG(V('f'), B(op, V('i'), c04.TRUE))])
+    # (round 9, C08-18) `select one` along chains that reach several instances, with and without a where clause: outside the
+    # reference's domain (which instance, if any, is selected is not defined), but every spelling must select alike
+    fan = c04.fan_population([0, 1, 2])
+    sel = ('selected',)
+    for chain in ([('B', 'R1', None)], [('B', 'R3', None)], [('A', 'R4', c04.T('one'))], [('C', 'R3', None), ('B', 'R3', None)]):
+        for where in (None, B('>=', ('field', sel, 'K'), I(1)), B('==', ('field', sel, 'K'), I(2))):
+            out.append(fan + [('selrel', 'one', 'x', V('a1'), chain, where),
+                              c04.IF(U('not_empty', V('x')), [c04.ASG(F_('x', 'K'), I(77))]),
+                              c04.IF(U('empty', V('x')), [c04.ASG(F_('a1', 'K'), I(88))])])
     # keyword operators applied to the result of keyword operators (rendered per occurrence by interpret_task)
     setup = c04.SETUPS[2]
     nobody = ('selfrom', 'any', 'nobody', 'A', B('==', ('field', ('selected',), 'K'), I(99)), True)
